@@ -288,13 +288,19 @@ def run_check(args):
 EXTRA = {}
 
 
+def _pp():
+    """PYTHONPATH of native child processes: the checker, then the tree under verification when it is not /repo
+    (PYVC_REPO: a scratch copy with a seeded change applied -- the editable install of /repo must not win)"""
+    return os.pathsep.join([HERE] + ([os.environ["PYVC_REPO"]] if os.environ.get("PYVC_REPO") else []))
+
+
 def run_mutation_sample(prop, seed, k=12):
     """mutation self-test of the proof part: k small semantic edits of the functions under contract,
     applied in memory; reported in evidence (informational: a survivor is an equivalent mutant or a
     contract too weak to notice, never a verdict on the tree)"""
     import subprocess
 
-    env = dict(os.environ, PYTHONPATH=HERE, PYVC_TIER="quick")
+    env = dict(os.environ, PYTHONPATH=_pp(), PYVC_TIER="quick")
     try:
         r = subprocess.run([sys.executable, "-W", "ignore", "-m", "pyvc.mutate", prop, "--sample", str(k), "--seed", str(seed)], capture_output=True, text=True, cwd=HERE, env=env, timeout=3000)
         txt = r.stdout[r.stdout.index("{") :]
@@ -307,7 +313,7 @@ def run_mutation_sample(prop, seed, k=12):
 def run_bounded(prop, tier, seed):
     import subprocess
 
-    env = dict(os.environ, PYTHONPATH=HERE)
+    env = dict(os.environ, PYTHONPATH=_pp())
     try:
         r = subprocess.run([sys.executable, "-W", "ignore", "-m", "pyvc.bounded", prop, "--tier", tier, "--seed", str(seed)], capture_output=True, text=True, cwd=HERE, env=env, timeout=1500)
         return json.loads(r.stdout.strip().splitlines()[-1])["bounded"]
